@@ -136,14 +136,14 @@ def txBody : L :=
   (seq [("Oid", .dec32), ("Okind", .dec32), ("Onode", .dec32), ("Uuid", .text), ("DbcTime", .dec32),
     ("Apdex", .u8), ("McallerStepId", .dec64), ("OriginUrl", .text), ("StepSplitCount", .dec64)] .nil)))))))
 
-/-- `TxRecord.Write`: version byte 10, then the body as a blob -/
-def txRecord : L := .lit .u8 10 (.wrap txBody none .nil)
+/-- `TxRecord.Write`: version byte 10, then the body as a blob; `TxRecord.Read` panics on a version below 10 -/
+def txRecord : L := .ver 10 10 (.wrap txBody none .nil)
 
 /-! ### bodies of the profile-carrying packs (after the AbstractPack header, which belongs to C03) -/
 
 /-- `ProfilePack`: the transaction record, then the step stream as a blob
     (the model describes `Read` with the proposed fix for D23: it reads a TxRecord) -/
-def profilePackBody : L := .lit .u8 10 (.wrap txBody none (.fld "Steps" .blob .nil))
+def profilePackBody : L := .ver 10 10 (.wrap txBody none (.fld "Steps" .blob .nil))
 
 def profileStepSplitPackBody : L :=
   .lit .u8 0 (seq [("Txid", .i64), ("Inx", .dec64), ("Steps", .blob)] .nil)
@@ -176,6 +176,7 @@ def L.fieldShapes : L → List (String × Shape)
     body.fieldShapes ++ (match attr with | some nm => [(nm, Shape.map)] | none => []) ++ rest.fieldShapes
   | .fields nm rest => (nm, .map) :: rest.fieldShapes
   | .bit _ _ body rest => body.fieldShapes ++ rest.fieldShapes
+  | .ver _ _ rest => rest.fieldShapes
 
 def Shape.zero : Shape → Val
   | .int => .i 0 | .bytes => .b [] | .ints => .is [] | .map => .m none
